@@ -98,6 +98,12 @@ def cases(d):
             if d.chance(40):
                 inl.append(["expr", ["not", ["dyn", "arr[%d].%s" % (1 - e, pick())]]])
             ops.append(["hcall", [i, j], inl, d.seed()])
+            if d.chance(50):
+                # the same reference again after the referenced element's list has changed (a foreach inside the block
+                # must follow the list on every call)
+                src_i = [i, j][e]
+                ops.append(["nlappend", src_i, d.randint(0, 7)] if d.chance(70) else ["nl", src_i, [d.randint(0, 7) for _ in range(d.randint(1, 3))]])
+                ops.append(["hcall", [i, j], inl, d.seed()])
     return {"cls": cls, "ops": ops, "sel": [d.randint(0, 1 << 16) for _ in range(6)]}
 
 
